@@ -244,6 +244,46 @@ Section Prefix.
     exists C2. unfold stD. pcbn. rewrite SB, V4. auto.
   Qed.
 
+  (* `name <test>` with a test that ends without a parenthesis: the control is complete and waits for its block *)
+  Lemma ctl_test_done : forall L name d a t nt st,
+    get_command_instance T L name = inl d -> d_type d = CControl -> d_accept_children d = true ->
+    d_args d = [a] -> is_t1 a = true -> wf_test T L t nt -> kind_of t = Kcc ->
+    ready st -> p_loaded st = L ->
+    exists stB, steps T st (mk TIdentifier name :: toks_test t) = Some stB /\ p_expected stB = Some [TLeftCBracket].
+  Proof.
+    intros L name d a t nt st Hg Hty Hch Ha Ht1 Hwt Hkc Hr Hl.
+    pose proof (run_test T L HT t nt Hwt) as IHt.
+    pose proof Hr as (Hc & He & Ho).
+    assert (Htw : twf d = true) by (eapply gci_twf; eauto).
+    destruct (slot_facts d a Htw Ha (or_introl Ht1)) as (Hreq & Hnv & Hnoex & Hts & Hv1 & _).
+    set (S0 := p_stack st) in *.
+    set (C := new_frame d (at_in S0)).
+    set (stC := with_cstate CArgs (with_stack (C :: S0) (with_expected (Some [TIdentifier]) st))).
+    assert (P0 : process T st (mk TIdentifier name) = MTrue stC).
+    { rewrite (push_cmd T st name d Hr); [|rewrite Hl; exact Hg|congruence]. rewrite Hty, Hch. unfold has_arguments.
+      rewrite Ha. reflexivity. }
+    destruct (cna_t1_new L d (at_in S0) a Htw Ha Ht1) as (C1 & EC & HcC1 & HdC1 & HaC1 & HargsC1 & HexC1 & HchC1 & HfC1).
+    fold C in EC.
+    assert (HfC : fi C) by (apply fi_new_frame; exact Htw).
+    assert (HlC : p_loaded stC = L) by (unfold stC; pcbn; exact Hl).
+    destruct (IHt stC C S0 C1 a eq_refl eq_refl ltac:(unfold stC; pcbn; reflexivity) HlC HfC EC)
+      as (F & stX & PX & CX & VX & UX & FX & AX & NX & TX & KX).
+    rewrite (t1_not_tl a Ht1) in AX.
+    set (C2 := attach_into F C1).
+    assert (HC2 : fi C2 /\ f_def C2 = d /\ f_attach C2 = at_in S0 /\ iscomplete C2 None = true /\ f_children C2 = []).
+    { destruct (fi_attach F C1 HfC1) as (B1 & B2 & B3 & B4 & B5 & B6).
+      { rewrite AX, HdC1. exact Hts. }
+      fold C2 in B1, B2, B3, B4, B5, B6.
+      split; [exact B1|]. split; [congruence|]. split; [congruence|].
+      split; [rewrite (iscomplete_ext C1 C2 None B2 B4 B5); exact HcC1|].
+      unfold C2, attach_into. rewrite AX. unfold set_arg. cbn. exact HchC1. }
+    destruct HC2 as (G1 & G2 & G3 & G4 & G7).
+    assert (HctlC2 : is_control C2 = true) by (unfold is_control; rewrite G2, Hty; reflexivity).
+    assert (HntC2 : is_test C2 = false) by (unfold is_test; rewrite G2, Hty; reflexivity).
+    unfold leave in PX. rewrite Hkc in PX. cbn [cc_loop] in PX. fold C2 in PX. rewrite HctlC2, G4 in PX. cbn [orb ostep] in PX.
+    eexists. split; [cbn [steps]; rewrite P0; exact PX|]. reflexivity.
+  Qed.
+
   (* `name {` for a control without arguments (else) *)
   Lemma open_else : forall L name d st,
     get_command_instance T L name = inl d -> d_type d = CControl -> d_accept_children d = true ->
@@ -1024,6 +1064,42 @@ Section Texts.
     apply (reject_after_prefix T text (pre ++ tn :: a0toks ++ lb :: ltoks) t rest st3 EExpected Hl'); [|exact X].
     rewrite map_app, steps_app, S1. cbn [map steps]. rewrite Etn, P1.
     rewrite map_app, steps_app, Hat, S2. cbn [map]. rewrite Hlb, Hlt. exact S3.
+  Qed.
+
+  (* ---- a missing block: after `if <test>` (a test that ends without a parenthesis) anything but '{' *)
+  Theorem missing_block_rejected : forall text pre tn ttoks t rest L prev k d a tst nt,
+    wf_prefix T (map strip_pos pre) L prev k ->
+    fst (lex text) = pre ++ tn :: ttoks ++ t :: rest ->
+    t_kind tn = TIdentifier -> get_command_instance T L (t_val tn) = inl d ->
+    d_type d = CControl -> d_accept_children d = true -> d_args d = [a] -> is_t1 a = true ->
+    wf_test T L tst nt -> kind_of tst = Kcc -> map strip_pos ttoks = toks_test tst ->
+    not_comment (t_kind t) = true -> kind_mem (t_kind t) [TLeftCBracket] = false ->
+    parse T text = Reject EExpected (t_pos t) (length (t_val t)).
+  Proof.
+    intros text pre tn ttoks t rest L prev k d a tst nt Hp Hl Hkn Hg Hty Hch Ha Ht1 Hwt Hkc Htt Hnc Hbad.
+    destruct (prefix_ready T HT _ L prev k Hp) as (st & S1 & R1 & L1 & _).
+    destruct (ctl_test_done T HT L (t_val tn) d a tst nt st Hg Hty Hch Ha Ht1 Hwt Hkc R1 L1) as (stB & S2 & EB).
+    assert (Etn : strip_pos tn = mk TIdentifier (t_val tn)) by (destruct tn; cbn in *; unfold strip_pos, mk; cbn; congruence).
+    assert (Hl' : fst (lex text) = (pre ++ tn :: ttoks) ++ t :: rest).
+    { rewrite Hl. repeat (rewrite <- app_assoc; cbn [app]). reflexivity. }
+    apply (reject_after_prefix T text (pre ++ tn :: ttoks) t rest stB EExpected Hl').
+    - rewrite map_app, steps_app, S1. cbn [map]. rewrite Etn, Htt. exact S2.
+    - apply (expected_mismatch T stB t [TLeftCBracket] EB Hbad Hnc).
+  Qed.
+
+  (* ---- bytes that are no token: after a prefix of the grammar, the parse is rejected at the place where no lexer
+     rule matches *)
+  Theorem lexical_error_rejected : forall text L prev k p,
+    wf_prefix T (map strip_pos (fst (lex text))) L prev k -> snd (lex text) = Some p ->
+    exists ll, parse T text = Reject EUnknownToken p ll.
+  Proof.
+    intros text L prev k p Hp Herr.
+    destruct (prefix_ready T HT _ L prev k Hp) as (st & S1 & _).
+    rewrite parse_run_tokens, Herr.
+    assert (Hlen : length (fst (lex text)) < 2 * length text + 2) by (pose proof (token_count text); lia).
+    destruct (steps_then_run T (fst (lex text)) p_init st _ [] (Some p) (length text) 0 S1 Hlen) as (ll & E).
+    rewrite app_nil_r in E. rewrite E. exists ll.
+    destruct (2 * length text + 2 - length (fst (lex text))) as [|f] eqn:Ef; [lia|]. reflexivity.
   Qed.
 
   (* ---- the end of the text *)
